@@ -612,6 +612,8 @@ func GenScalarText(r *Rand, k TK, base int, variant int) string {
 		return r.Pick([]string{"cpu", "CPU", "Mem", "disk0", "NET"}) + r.Pick([]string{"", "", "1", "X"})
 	case k == KBag:
 		return fmt.Sprintf("bag%d", r.Intn(1000))
+	case k == KMode:
+		return vocabulary[r.Intn(len(vocabulary))]
 	case k == KVocab:
 		if r.Bool() {
 			return vocabulary[r.Intn(len(vocabulary))]
